@@ -348,7 +348,7 @@ func (r *searchRun) check(g *ref.Game, req Request, res *SearchResult, si int) {
 	if res.Overspend != "" {
 		r.out.Violations = append(r.out.Violations, Violation{Property: "C08", Kind: "overspend", Detail: res.Overspend + " root=" + g.Cur().FEN(), Step: si})
 	}
-	if req.Nodes >= 0 && !req.Ponder && res.Panic == "" && res.Nodes > req.Nodes {
+	if req.Nodes >= 0 && (!req.Ponder || res.LeftPonder) && res.Panic == "" && res.Nodes > req.Nodes {
 		r.out.Violations = append(r.out.Violations, Violation{Property: "C08", Kind: "overspend", Detail: fmt.Sprintf("returned with Counters.Nodes=%d above the hard budget %d; root=%s", res.Nodes, req.Nodes, g.Cur().FEN()), Step: si})
 	}
 }
